@@ -148,6 +148,8 @@ Definition remove_canary_service (c : tctx) (n : net) (g : graces) : tres :=
 
 Definition route_all_to_new (c : tctx) (n : net) (g : graces) : tres :=
   if negb (tc_refs c) then tdone true g else
+  (* since the fix of F20: without a canary Service (no step routed traffic) there is nothing to route to *)
+  if negb (tc_only_traffic c) && match n_canary_svc n with None => true | Some _ => false end then tdone true g else
   (* a failed EnsureRoutes counts as "not verified": the timestamp is touched although nothing was written *)
   if tc_gateway_fails c then {| tr_ok := false; tr_err := true; tr_writes := []; tr_graces := g; tr_touched := true |} else
   let '(verified, ws) := ensure_routes (n_route n) (weight_only 100) in
